@@ -23,3 +23,4 @@ def check(ctx, rep):
     S.rule_A2_A3(ctx, rep)
     # the sink's own emit is lock + one writer call: no flush or second write of its own
     S.rule_lock_discipline(ctx, rep, 'G2', methods=('emit',))
+    S.rule_writer_only_in_emit_flush(ctx, rep, 'G3')
